@@ -44,6 +44,8 @@ type Case struct {
 	N      int    `json:"n,omitempty"`      // size / width / depth
 	Cost   bool   `json:"cost,omitempty"`   // with the cost rule (work)
 	Src    string `json:"src,omitempty"`    // explicit source text (walk)
+	Seed   int64  `json:"seed,omitempty"`   // walkbatch: documents From … From+N-1 of the stream of this seed
+	From   int    `json:"from,omitempty"`
 }
 
 // ---- child process --------------------------------------------------------------------------------
@@ -147,11 +149,53 @@ func runParse(src string) childResult {
 	return r
 }
 
+// walkDoc derives document i of the random stream of a run deterministically from (seed, i).
+func walkDoc(seed int64, i int) string {
+	r := hx.NewRand(uint64(seed)*1000003 + uint64(i))
+	g := &docGen{r: r, nfrag: r.Range(0, 6), budget: r.Range(3, 40), cyclic: r.Chance(1, 5)}
+	return g.document()
+}
+
+// walkLine is what a walk-batch child reports per document.
+type walkLine struct {
+	Begin int         `json:"begin,omitempty"` // announced before the document is run (1-based)
+	I     int         `json:"i,omitempty"`     // 1-based index of a finished document
+	Rule  childResult `json:"rule"`
+	Full  childResult `json:"full"`
+	OK    bool        `json:"parsed"`
+	Panic string      `json:"panic,omitempty"`
+}
+
+func walkBatchChild(c Case) {
+	s := mkSchema()
+	w := json.NewEncoder(os.Stdout)
+	for i := c.From; i < c.From+c.N; i++ {
+		w.Encode(walkLine{Begin: i + 1})
+		src := walkDoc(c.Seed, i)
+		var l walkLine
+		l.I = i + 1
+		func() {
+			defer func() {
+				if p := recover(); p != nil {
+					l.Panic = fmt.Sprint(p)
+				}
+			}()
+			l.Rule, l.OK = runRule(src, s)
+			l.Full = runWork(Case{Kind: "walk", Cost: true}, src, s)
+		}()
+		w.Encode(l)
+	}
+}
+
 func childMain(spec string) {
 	var c Case
 	if err := json.Unmarshal([]byte(spec), &c); err != nil {
 		fmt.Fprintln(os.Stderr, "bad child spec:", err)
 		os.Exit(2)
+	}
+	if c.Kind == "walkbatch" {
+		walkBatchChild(c)
+		return
 	}
 	src, ok := sourceOf(c)
 	if !ok {
@@ -697,16 +741,15 @@ func main() {
 	for _, l := range h.table {
 		run.Note("%s", l)
 	}
-	// (C) random fragment graphs: hook counter = step model, visits within the bound
+	// (C) random fragment graphs: hook counter = step model, visits within the bound. The documents
+	// run in child processes (a stack overflow or a hang of the validator must not end the harness);
+	// the parent compares each report with the model.
 	nRand := run.Scale(3000, 40000)
-	for i := 0; i < nRand; i++ {
-		r := run.Rand.Fork()
-		g := &docGen{r: r, nfrag: r.Range(0, 6), budget: r.Range(3, 40), cyclic: r.Chance(1, 5)}
-		c := Case{Kind: "walk", Src: g.document(), Cost: true}
-		if i < 3 {
-			run.Sample(c)
+	const batch = 500
+	for from := 0; from < nRand; from += batch {
+		if !h.walkBatch(Case{Kind: "walkbatch", Seed: run.Seed, From: from, N: batch}) {
+			break
 		}
-		h.walkCase(c)
 	}
 	lap("walk")
 	run.Finish(h.model)
@@ -733,11 +776,78 @@ func runRule(src string, s *graphql.Schema) (r childResult, parsed bool) {
 	return r, true
 }
 
-// walkCase: a small generated document through (1) the cost rule alone, compared with the step
-// model including its abort paths, and (2) graphql.ParseAndValidate + cost rule, where the walk
-// must run exactly on the documents the standard rules accept.
+// walkBatch runs one batch of random documents in a child and compares every report with the model.
+// It returns false when the child died or hung (the failing document is reported).
+func (h *harness) walkBatch(b Case) bool {
+	spec, _ := json.Marshal(b)
+	cmd := exec.Command(os.Args[0])
+	cmd.Env = append(os.Environ(), "C12_CHILD="+string(spec))
+	out, err := cmd.StdoutPipe()
+	var errb bytes.Buffer
+	cmd.Stderr = &errb
+	if err != nil || cmd.Start() != nil {
+		h.run.Note("cannot start the walk-batch child")
+		return false
+	}
+	lines := make(chan walkLine, 64)
+	go func() {
+		dec := json.NewDecoder(out)
+		for {
+			var l walkLine
+			if dec.Decode(&l) != nil {
+				close(lines)
+				return
+			}
+			lines <- l
+		}
+	}()
+	running := 0 // 1-based index of the document announced but not finished
+	fail := func(mode string) bool {
+		cmd.Process.Kill()
+		cmd.Wait()
+		c := Case{Kind: "walk", Cost: true}
+		what := mode + ": the walk-batch child ended before its first document"
+		if running > 0 {
+			c.Src = walkDoc(b.Seed, running-1)
+			t := errb.String()
+			if len(t) > 400 {
+				t = t[:400]
+			}
+			what = fmt.Sprintf("%s: graphql.ParseAndValidate / validator.ValidateCost on a generated %d-byte document: %s", mode, len(c.Src), t)
+		}
+		h.run.Oblige("oracle: validation of random fragment graphs returns (no crash, no hang)", "oracle", 1, false, what)
+		h.run.Violate("crash", what, "", false, c)
+		return false
+	}
+	for {
+		select {
+		case l, ok := <-lines:
+			if !ok {
+				err := cmd.Wait()
+				if err != nil || running != 0 {
+					return fail("crash")
+				}
+				return true
+			}
+			if l.Begin > 0 {
+				running = l.Begin
+				continue
+			}
+			running = 0
+			c := Case{Kind: "walk", Src: walkDoc(b.Seed, l.I-1), Cost: true}
+			if l.I <= 3 {
+				h.run.Sample(c)
+			}
+			h.run.Oblige("oracle: validation of random fragment graphs returns (no crash, no hang)", "oracle", 1, l.Panic == "", l.Panic)
+			h.walkCompare(c, l.Rule, l.Full, l.OK, l.Panic)
+		case <-time.After(h.budget):
+			return fail("hang")
+		}
+	}
+}
+
+// walkCase: one document in-process (replay of a recorded walk case).
 func (h *harness) walkCase(c Case) {
-	run := h.run
 	var r, full childResult
 	parsed := false
 	panicked := ""
@@ -752,6 +862,14 @@ func (h *harness) walkCase(c Case) {
 		full = runWork(c, c.Src, h.schema)
 		h.end()
 	}()
+	h.walkCompare(c, r, full, parsed, panicked)
+}
+
+// walkCompare: (1) the cost rule alone against the step model including its abort paths, (2)
+// graphql.ParseAndValidate + cost rule, where the walk must run exactly on the documents the standard
+// rules accept, (3) the quadratic bound on the visits.
+func (h *harness) walkCompare(c Case, r, full childResult, parsed bool, panicked string) {
+	run := h.run
 	run.Case(c.Src, r.Sels >= 5)
 	run.Count("walk")
 	if panicked != "" {
